@@ -49,6 +49,7 @@ func checkC15(ctx *Ctx, r *Report, tier string) {
 	check3MF(ctx, r)
 	checkDXF(ctx, r)
 	checkSVG(ctx, r)
+	checkSVGDecimals(ctx, r)
 	r.floor("X1", 5)
 	r.floor("X2", 3)
 	r.floor("X3", 6)
@@ -716,4 +717,44 @@ func sortedKeys(m map[string]bool) []string {
 	}
 	sort.Strings(ks)
 	return ks
+}
+
+// checkSVGDecimals (X6): the SVG library prints coordinates with the number of decimals held in
+// the canvas's Decimals field, 2 unless somebody changes it. The module never stores anything
+// but the constant 2 into that field (a size-dependent precision makes small drawings come out
+// in another format than the specified one).
+func checkSVGDecimals(ctx *Ctx, r *Report) {
+	n := 0
+	for _, fn := range ctx.srcFuncs("render", "sdf", "obj", "render/dc") {
+		ord := 0
+		allInstrs(fn, func(_ *ssa.BasicBlock, ins ssa.Instruction) {
+			st, ok := ins.(*ssa.Store)
+			if !ok {
+				return
+			}
+			fa, ok := st.Addr.(*ssa.FieldAddr)
+			if !ok {
+				return
+			}
+			pt, ok := fa.X.Type().Underlying().(*types.Pointer)
+			if !ok {
+				return
+			}
+			named, _ := pt.Elem().(*types.Named)
+			sty, ok := pt.Elem().Underlying().(*types.Struct)
+			if !ok || named == nil || named.Obj().Pkg() == nil || !strings.Contains(named.Obj().Pkg().Path(), "svgo") {
+				return
+			}
+			if sty.Field(fa.Field).Name() != "Decimals" {
+				return
+			}
+			ord++
+			n++
+			c, isConst := st.Val.(*ssa.Const)
+			ok2 := isConst && c.Value != nil && c.Value.ExactString() == "2"
+			r.check("X6", fmt.Sprintf("%s|decimals-store#%d", shortFn(fn), ord), st.Pos(), ok2, "the canvas's Decimals field is left at, or set to, the constant 2")
+		})
+	}
+	r.Counts["decimals_stores"] = n
+	r.expectControl("X6", "verifCtlSVGDecimals")
 }
